@@ -314,6 +314,9 @@ PROPS["C13"] = {
         # wire content served by the reference server's raw-response feature, seen through the real client and tracer
         {"name": "C13RawE2E", "pkg": RC, "test": "TestVerifC13RawE2E", "kind": "rapid",
          "checks": {"quick": 600, "thorough": 8000}, "shards": {"quick": 2, "thorough": 8}},
+        # custom -bin metadata: every value of every key (several entries, several values each, any letter case)
+        {"name": "C13BinMeta", "pkg": RC, "test": "TestVerifC13BinMeta", "kind": "rapid",
+         "checks": {"quick": 15000, "thorough": 200000}, "shards": {"quick": 2, "thorough": 8}},
         {"name": "C13Fuzz", "pkg": RC, "test": "FuzzVerifC13Examiners", "kind": "fuzz", "fuzz_target": "FuzzVerifC13Examiners",
          "only_tiers": ["thorough"], "fuzztime": {"thorough": "90s"}, "workers": 16, "timeout": {"thorough": 900}},
     ],
